@@ -121,6 +121,11 @@ def step (line : String) : String :=
     | "pts.set" => do
       let p ← pPoints; let ix ← pIndex; let q ← pPoints
       return showE showPoints (p.setitem ix q)
+    | "pts.live" => do
+      -- one object, a sequence of assignments applied one after the other (value semantics)
+      let p ← pPoints
+      let ms ← many (do let ix ← pIndex; let q ← pPoints; pure (ix, q))
+      return showE showPoints (ms.foldlM (fun acc (m : Index × Points Rat) => acc.setitem m.1 m.2) p)
     | "pts.arith" => do
       let o ← next; let p ← pPoints; let q ← pPoints
       match arithFn o with
